@@ -84,13 +84,15 @@ class Sys:
 
     def events(self):
         evs = []
-        if len(self.live) < MAXLIVE:
+        if len(self.live) < (self.cfg[7] if len(self.cfg) > 7 else MAXLIVE):
             for s in self.sizes:
                 evs.append(("alloc", s, True))
                 if self.al > 1:
                     evs.append(("alloc", s, False))
         for i in range(len(self.live)):
             evs.append(("free", i))
+        if len(self.cfg) > 6 and self.cfg[6] == "no-grow":
+            return evs  # deep histories of allocate / free only (packed and aligned requests mixed)
         for g in GROWS:
             evs.append(("grow", g))
         evs.append(("alloc-huge",))  # a request the machine cannot satisfy: refused, and nothing may have changed
@@ -342,6 +344,9 @@ def plan(tier):
         for cap0, al, gs, ik, sizes in ((250, 1, None, "u8", (200, 100, 60)), (120, 8, None, "i8", (100, 27, 8)), (250, 4, 8, "u8", (100, 99, 7)),
                                         (32000, 1, None, "i16", (30000, 5000, 100)), (65000, 8, None, "u16", (60000, 6000, 24)), (250, 2, None, "i64", (200, 100, 60))):
             out.append(((kind, cap0, al, gs, ik, sizes), (2 if cap0 > 1000 else 3) if tier == "quick" else (3 if cap0 > 1000 else 4)))
+    # deep histories over a narrow alphabet: allocate (packed / aligned to 8) and free only, four sizes that leave unaligned
+    # holes and exact fits; what an allocator remembers about a region must not outlive the region
+    out.append((("BufferNumpy", 64, 8, None, None, (3, 5, 16, 4), "no-grow", 3), 7 if tier == "quick" else 8))
     if tier != "quick":
         for cap0, al, gs in itertools.product(CAPS, ALS, GSS):
             out.append((("BufferNumpy", cap0, al, gs), 5))
